@@ -225,6 +225,29 @@ def replay_case(case):
 # ---------------------------------------------------------------------------------------------------------
 # correspondence with the Lean location model (herad `linecol`, `ifdefp`)
 
+def lexed_text(text):
+    """the text that the real parser hands to its lexer (after conditional compilation), observed by wrapping the Lexer
+    class that hera.parser uses for the duration of one parse call"""
+    import hera.parser as P
+    seen = []
+    real_lexer = P.Lexer
+
+    def spy(t, *a, **kw):
+        seen.append(t)
+        return real_lexer(t, *a, **kw)
+    P.Lexer = spy
+    try:
+        with proto.Capture() as cap:
+            try:
+                P.parse(text, settings=progrun.make_settings())
+            except BaseException:  # noqa
+                pass
+            cap.take()
+    finally:
+        P.Lexer = real_lexer
+    return seen[0] if seen else ""
+
+
 def check_model(seed, n):
     from hera.lexer import Lexer
     import hera.utils as U
@@ -259,7 +282,7 @@ def check_model(seed, n):
                 text = ifdefs.mutate(text, rng)
             if rng.random() < 0.3:
                 text = text.replace("\n", "\n\n", rng.choice([1, 2]))
-            real = P.evaluate_ifdefs(text, preserve_lines=True)
+            real = lexed_text(text)
             reals.append("1 " + proto.w_str(real))
             reqs.append("ifdefp " + proto.w_str(text))
             cases.append({"kind": "ifdefp", "text": text})
